@@ -87,9 +87,9 @@ Definition source_substring (content : bytes) (p : N) : bytes :=
     let nl := detect_nl content in
     let b := line_begin nl content p in
     let e := line_end nl content p in
-    if N.ltb max_length (e - b)
-    then trim_spaces_from_left (slice content b (b + max_length - 3)) ++ dots
-    else trim_spaces_from_left (slice content b e)
+    (* fix 129ea9b: the indentation is removed first, only the visible text counts against the 200 bytes *)
+    let t := trim_spaces_from_left (slice content b e) in
+    if Nat.ltb 200 (length t) then firstn 197 t ++ dots else t
   end.
 
 (* pointerToTheErrorCharacter: number of '-' before '^' (after the fix: clamped at 0) *)
